@@ -1,4 +1,5 @@
 import Bmc.Proofs.GenOrch.WalkSDRs
+import Bmc.Proofs.GenOrch.RetrieveSDRRepository
 import Bmc.Proofs.C14
 /-! # C14 (completeness), stated about `walkSDRs` AS REGENERATED on this run -/
 namespace Bmc.Proofs.EndToEnd
@@ -13,5 +14,27 @@ theorem generated_walkSDRs_complete (R : Repo) (junk : _ → GetSDRReq → GetSD
     (bmc_walkSDRs fuel (sendOf bmc junk) (reserveOf bmc) (World.quiet R)).1.map viewRepo
       = ofRes (.ok (fullView R.store.recs)) := by
   rw [(walkSDRs_gen_eq bmc junk fuel (World.quiet R)).1, walk_complete R fuel hwf hne hfull hfuel]
+
+/-- **One consistent set, about `RetrieveSDRRepository` AS REGENERATED on this run.** Against the SDR device of `Spec/Repo.lean` whose
+    repository MAY CHANGE under the walk (any world satisfying the device invariant: additions and deletions between any two
+    commands, reservations cancelled by them), for any number of attempts and any fuel: a repository returned by the translated
+    function is exactly the set of Full Sensor Records of ONE state of the device — the state in which the run ended — each
+    under its own ID; it is never a mixture of two states. (The disjunct "out of fuel" is excluded for fuel beyond the number of
+    records by `generated_walkSDRs_complete` on a quiet device; for a device that keeps growing no finite walk completes.) -/
+theorem generated_RetrieveSDRRepository_snapshot (junk : _ → GetSDRReq → GetSDRRsp) (fuel attempts : Nat) (w : World) (hInv : w.Inv)
+    (m : SDRRepository)
+    (h : (bmc_RetrieveSDRRepository fuel (sendOf bmc junk) (infoOf bmc) (reserveOf bmc) attempts w).1.map viewRepo = .ok m) :
+    m = fullView (bmc_RetrieveSDRRepository fuel (sendOf bmc junk) (infoOf bmc) (reserveOf bmc) attempts w).2.repo.store.recs := by
+  rcases RetrieveSDRRepository_gen_eq bmc junk fuel attempts w with hf | ⟨h1, h2⟩
+  · rw [hf] at h; cases h
+  · rw [h1] at h
+    cases hr : (retrieve true bmc fuel attempts w).2 with
+    | none => rw [hr] at h; cases h
+    | some m' =>
+      rw [hr] at h
+      injection h with h
+      subst h
+      rw [h2]
+      exact Proofs.C14.snapshot fuel attempts w _ m' hInv (Prod.ext rfl hr)
 
 end Bmc.Proofs.EndToEnd
